@@ -3,7 +3,8 @@
 From Coq Require Import ZArith NArith List Bool.
 Import ListNotations.
 From SV Require Import Common.Int32 C02deep.Syntax C02deep.Sem C02deep.Passes C02deep.ProofsSem C02deep.ProofsDce
-  C02deep.ProofsCcp C02deep.ProofsCcpFull C02deep.ProofsCcpWitness C02deep.ProofsLvn C02deep.ProofsPipeline.
+  C02deep.ProofsCcp C02deep.ProofsCcpFull C02deep.ProofsCcpWitness C02deep.ProofsLvn C02deep.ProofsWf C02deep.ProofsWfLvn
+  C02deep.ProofsPipeline.
 Open Scope Z_scope.
 
 (* ---- the semantics ---- *)
@@ -175,12 +176,42 @@ Proof. exact ccp_preserves_add_named. Qed.
 Theorem C02deep_lvn_preserves_add : forall w f, wf_func f = true -> refines_add w (lvn f) f.
 Proof. exact lvn_preserves_add. Qed.
 
-(* one round ccp; lvn; dce and any number of them: the hypotheses on the intermediate functions are decidable
-   and evaluated by the check for every function it sees *)
+(* every pass gives back a well-formed function without a Break outside of a loop, so a pipeline needs these two
+   facts of its INPUT only (for ccp see C02deep_ccp_wf above) *)
+Theorem C02deep_dce_wf : forall f, wf_func f = true -> wf_func (dce f) = true.
+Proof. exact dce_wf. Qed.
+Theorem C02deep_lvn_wf : forall f, wf_func f = true -> wf_func (lvn f) = true.
+Proof. exact lvn_wf. Qed.
+Theorem C02deep_dce_no_break : forall f, no_break_l (f_body f) = true -> no_break_l (f_body (dce f)) = true.
+Proof. exact dce_no_break. Qed.
+Theorem C02deep_lvn_no_break : forall f, no_break_l (f_body f) = true -> no_break_l (f_body (lvn f)) = true.
+Proof. exact lvn_no_break. Qed.
+Theorem C02deep_ccp_no_break : forall f f' fl,
+  no_break_l (f_body f) = true -> ccp f = Some (f', fl) -> no_break_l (f_body f') = true.
+Proof. exact ccp_no_break. Qed.
+
+(* one round ccp; lvn; dce *)
 Theorem C02deep_round : forall w f f1 fl,
-  wf_func f = true -> no_dead_final_operands f -> ccp f = Some (f1, fl) -> wf_func f1 = true -> wf_func (lvn f1) = true ->
-  refines_add w (dce (lvn f1)) f.
+  wf_func f = true -> no_break_l (f_body f) = true -> no_dead_final_operands f -> ccp f = Some (f1, fl) ->
+  refines_add w (dce (lvn f1)) f /\ wf_func (dce (lvn f1)) = true /\ no_break_l (f_body (dce (lvn f1))) = true.
 Proof. exact round_preserves. Qed.
+
+(* optimize_function_for_rounds (lib.rs) restricted to the modelled passes, in its order and number of rounds:
+   Passes.pipeline b = (ccp; [lvn if b]; dce) twice, then ccp; dce; ccp.  Only the INPUT has to be well formed;
+   `pipeline_no_dead_final_operands` says that none of the five ccp applications met dead final operands. *)
+Theorem C02deep_pipeline : forall w b f f' fl,
+  wf_func f = true -> no_break_l (f_body f) = true -> pipeline_no_dead_final_operands b f ->
+  pipeline b f = Some (f', fl) ->
+  refines w f' f /\ wf_func f' = true /\ no_break_l (f_body f') = true.
+Proof. exact pipeline_preserves_named. Qed.
+Example C02deep_pipeline_nonvacuous :
+  wf_func ex_ccp = true /\ no_break_l (f_body ex_ccp) = true /\ pipeline_no_dead_final_operands true ex_ccp /\
+  (exists f', pipeline true ex_ccp = Some (f', (false, false)) /\ f' <> ex_ccp /\
+              sem Wrap ex_world f' [4] 10 = Done 9 [(8%N, [5; 9]); (8%N, [5; 8]); (8%N, [5; 7])]).
+Proof.
+  split; [vm_compute; reflexivity|]. split; [vm_compute; reflexivity|]. split; [vm_compute; reflexivity|].
+  eexists. split; [vm_compute; reflexivity|]. split; [intros H; discriminate H | vm_compute; reflexivity].
+Qed.
 
 (* ---- local value numbering (local_value_numbering.rs): full strength ---- *)
 Theorem C02deep_lvn_preserves : forall w f, wf_func f = true -> refines w (lvn f) f.
@@ -230,3 +261,9 @@ Print Assumptions C02deep_dce_preserves_mode.
 Print Assumptions C02deep_ccp_preserves_add.
 Print Assumptions C02deep_lvn_preserves_add.
 Print Assumptions C02deep_round.
+Print Assumptions C02deep_dce_wf.
+Print Assumptions C02deep_lvn_wf.
+Print Assumptions C02deep_dce_no_break.
+Print Assumptions C02deep_lvn_no_break.
+Print Assumptions C02deep_ccp_no_break.
+Print Assumptions C02deep_pipeline.
